@@ -34,11 +34,12 @@ pub const DEF: CheckDef = CheckDef {
     id: "C14",
     run,
     technique: "bounded-exhaustive enumeration of (prefix context x fault x include location) with generator-computed first/last/fault line of the one invalid entry in original-file numbering; the rendered error chain of the real loader/parser/book-keeper (FakeFileSystem in-process, and the in-process CLI on real files for a fixed subset) is parsed (named path, `-->` line, gutter numbers, snippet text) and compared with the generator's numbers and with the original file's lines",
-    rule: "case = (context, fault, location, fs). Context = 8 slots with a default each (leading blank lines 0-3; blank lines between preceding content and the bad entry 1/0/2/3; LF/CRLF; preceding content none/comment block/transaction/two transactions/directives/mix; multi-byte marker none/2-/3-/4-byte UTF-8 in preceding payees, comments, account names and inside the bad entry before the fault; following content none/transaction/transaction+comment; blank lines after the bad entry 1/0/2; final newline present/absent): all contexts with <= 2 non-default slots (thorough: ALL contexts, i.e. the full product of the 8 slots). Fault = every entry of the fault table (syntactic: bad date, bad effective date, unknown directive, malformed number / unclosed parenthesis / duplicated lot price / dangling @ / dangling = / bad lot date / trailing garbage on posting k=1..3, unindented posting, bare include, bad sub-line of account/commodity, malformed apply tag / end; semantic: unbalanced, false assertion on posting j, two omitted postings, zero rate, zero total, same-commodity cost/lot, zero lot, zero amount with cost, expression errors, `= 0` on a multi-commodity account, account/commodity alias conflicts). Location = root, or literal/glob include at depth 1/2 below a root with a short or long preamble (and, for faults needing an earlier declaration, that declaration in the bad file or in the root). Include-before-entry family: in the file of the bad entry (root or included) an `include` line precedes the entry, its target being an empty / newline-only / whitespace-only / comment-only / valid file or a glob matching blank files among valid ones (7 kinds) x all faults x contexts with <= 1 (thorough <= 2) non-default slots  x root + 4 include shapes (thorough: all locations). Binary family: the real hooks-off `okane` binary (stderr = the diagnostic) for balance, register, primitive eval (+ accounts, primitive flatten for syntax faults) x all faults x default context (thorough <= 1 non-default slot) x root + 4 include shapes (+ after an include of an empty file). states = cases executed, transitions = line numbers + snippet lines compared",
+    rule: "case = (context, fault, location, fs). Context = 8 slots with a default each (leading blank lines 0-3; blank lines between preceding content and the bad entry 1/0/2/3; LF/CRLF; preceding content none/comment block/transaction/two transactions/directives/mix; multi-byte marker none/2-/3-/4-byte UTF-8 in preceding payees, comments, account names and inside the bad entry before the fault; following content none/transaction/transaction+comment; blank lines after the bad entry 1/0/2; final newline present/absent): all contexts with <= 2 non-default slots (thorough: ALL contexts, i.e. the full product of the 8 slots). Fault = every entry of the fault table (syntactic: bad date, bad effective date, unknown directive, malformed number / unclosed parenthesis / duplicated lot price / dangling @ / dangling = / bad lot date / trailing garbage on posting k=1..3, unindented posting, bare include, bad sub-line of account/commodity, malformed apply tag / end; semantic: unbalanced, false assertion on posting j, two omitted postings, zero rate, zero total, same-commodity cost/lot, zero lot, zero amount with cost, expression errors, `= 0` on a multi-commodity account, account/commodity alias conflicts). Location = root, or literal/glob include at depth 1/2 below a root with a short or long preamble (and, for faults needing an earlier declaration, that declaration in the bad file or in the root). Include-before-entry family: in the file of the bad entry (root or included) an `include` line precedes the entry, its target being an empty / newline-only / whitespace-only / comment-only / valid file or a glob matching blank files among valid ones (7 kinds) x all faults x contexts with <= 1 (thorough <= 2) non-default slots  x root + 4 include shapes (thorough: all locations). Binary family: the real hooks-off `okane` binary (stderr = the diagnostic) for balance, register, primitive eval (+ accounts, primitive flatten for syntax faults) x all faults x default context (thorough <= 1 non-default slot) x root + 4 include shapes (+ after an include of an empty file). Long-entry family: transactions of 2, 5, 10, 11, 12, 30 lines with the fault (false assertion, zero rate, same-commodity cost, second omitted posting, dangling @, unclosed parenthesis) on EVERY posting line incl. the last x contexts with <= 1 (thorough <= 2) non-default slots x root / literal depth 1 / glob depth 2 (thorough: all locations), plus the real binary for faults on entry line 11 and on the last line. Per-posting syntax faults include unclosed `(` lot note, `{`, `{{`, `[` and stray closers, and all following content carries `( ) @ { } [ ] \"`. states = cases executed, transitions = line numbers + snippet lines compared",
     assumptions: &[
         "the generator's own line arithmetic (positions in a Vec of lines) is the reference; every line of a generated file is textually distinct from its neighbours, so a snippet line identifies its line number",
         "for a syntax error the allowed range is [first line of the entry, fault line]; a number after the fault line but inside the entry (or the blank line / end of file directly after it) is DON'T-CARE because the statement does not pin where a parser may stop; a number before the entry or inside another entry is a violation",
         "column numbers, message wording and the choice of annotated sub-spans are not judged",
+        "title of the property (\"name the right file and line\"): a rejection whose diagnostic shows no line number at all (no gutter, no `-->`) is a violation; a binary that ends with a status other than 0/1 (panic, signal) while rendering is a crash violation",
         "every location header (` --> p:l:c`, `failed to parse file p`, any `p:<digit>` of a loaded file) must name the file holding the offending line, also when the right file is named elsewhere in the same diagnostic; a bare mention of another loaded file outside a location header is DON'T-CARE",
         "the binary's stderr cannot be classified by phase (parse / book-keeping) without trusting its text, so the phase cross-check is skipped there; exit status 1 = rejected, 0 = accepted, anything else is reported as a crash",
         "real-file-system subset: all faults x all locations (plus a depth-2 include through `../`) x contexts with <= 1 (thorough <= 2) non-default slots, through `okane balance` (and `register` / `accounts`, `primitive flatten`; in quick these only in the default context) run in-process exactly like cli/src/bin/okane.rs",
@@ -162,7 +163,14 @@ fn prefix_lines(kind: u8, m: &str) -> Vec<String> {
 }
 
 fn suffix_lines(kind: u8, m: &str) -> Vec<String> {
-    let txn = vec![format!("2024/03/01 Later {m}"), "  Post:A  3 X".to_string(), "  Post:B".to_string()];
+    // later content carries every kind of delimiter (matching and unrelated to an unclosed one in the bad entry)
+    let txn = vec![
+        format!("2024/03/01 Later {m}"),
+        "  Post:A  (1 X + 2 X) @ 3 Y".to_string(),
+        format!("  Post:D  2 X {{4 Y}} [2024/01/01] (lot {m} note)"),
+        "  Post:Q  1 \"QR\"".to_string(),
+        "  Post:B".to_string(),
+    ];
     match kind {
         0 => vec![],
         1 => txn,
@@ -252,6 +260,19 @@ fn faults(m: &str) -> Vec<Fault> {
     ];
     for (fam, s) in per_posting {
         for k in 1..=3usize {
+            out.push(Fault { name: format!("{}-on-posting-{}", fam, k), family: fam, kind: Kind::Syntax, setup: vec![], lines: tt(None, &with(k, s)), fault: POST_LINE[k] });
+        }
+    }
+    // unclosed / stray delimiters of every kind okane knows (it has no string quoting: `2 "AB` is a commodity named `"AB`)
+    let unclosed: [(&'static str, &str); 5] = [
+        ("unclosed-lot-note", "2 X (second lot"),
+        ("unclosed-lot-brace", "2 X {1 Y"),
+        ("unclosed-lot-double-brace", "2 X {{1 Y"),
+        ("unclosed-lot-bracket", "2 X [2024/01/01"),
+        ("stray-closing-delimiters", "2 X )}]"),
+    ];
+    for (fam, s) in unclosed {
+        for k in 2..=3usize {
             out.push(Fault { name: format!("{}-on-posting-{}", fam, k), family: fam, kind: Kind::Syntax, setup: vec![], lines: tt(None, &with(k, s)), fault: POST_LINE[k] });
         }
     }
@@ -345,6 +366,78 @@ fn faults(m: &str) -> Vec<Fault> {
     ));
     out.push(sem("commodity-alias-already-canonical".into(), "alias-conflict", v(&["commodity BADC"]), vec!["commodity BADD".into(), format!("  note second {m}"), "  alias BADC".into()]));
     out.push(sem("commodity-canonical-already-alias".into(), "alias-conflict", v(&["commodity BADC", "  alias BADE"]), vec!["commodity BADE".into(), format!("  note clash {m}")]));
+    out
+}
+
+/// Long entries: a transaction of n lines in total (header, postings, and from 10 lines on a posting comment after
+/// every fourth posting) with the fault on EVERY posting line, the last line included.
+const LONG_SIZES: [usize; 6] = [2, 5, 10, 11, 12, 30];
+
+fn long_faults(m: &str) -> Vec<Fault> {
+    let mut out = vec![];
+    for n in LONG_SIZES {
+        // body layout: which of the n-1 body lines are postings
+        let mut is_post: Vec<bool> = vec![];
+        for b in 0..n - 1 {
+            is_post.push(!(n >= 10 && b % 5 == 3 && b != n - 2));
+        }
+        let nposts = is_post.iter().filter(|x| **x).count();
+        let amount_of = |pi: usize| -> String {
+            if nposts == 1 {
+                "0 X".to_string()
+            } else if pi == nposts - 1 {
+                format!("-{} X", nposts - 1)
+            } else {
+                "1 X".to_string()
+            }
+        };
+        let kinds: [(&'static str, Kind); 6] = [
+            ("long-false-assertion", Kind::Semantic),
+            ("long-zero-rate", Kind::Semantic),
+            ("long-same-commodity-cost", Kind::Semantic),
+            ("long-two-omitted", Kind::Semantic),
+            ("long-dangling-at", Kind::Syntax),
+            ("long-unclosed-paren", Kind::Syntax),
+        ];
+        for (fam, kind) in kinds {
+            for target in 0..nposts {
+                if fam == "long-two-omitted" && nposts < 3 {
+                    continue;
+                }
+                // the other omitted posting: the first one (the second one when the target is the first)
+                let other = if target == 0 { 1 } else { 0 };
+                let mut lines = vec![format!("2024/02/02 * (L{}) Long {m} entry", n)];
+                let mut pi = 0usize;
+                let mut fault_line = 0usize;
+                for b in 0..n - 1 {
+                    if !is_post[b] {
+                        lines.push(format!("    ; remark {:02} {m}", b));
+                        continue;
+                    }
+                    let acct = format!("  Long:P{:02}{m}", pi);
+                    let a = amount_of(pi);
+                    let line = if pi == target {
+                        fault_line = lines.len();
+                        match fam {
+                            "long-false-assertion" => format!("{}    {} = 100 X", acct, a),
+                            "long-zero-rate" => format!("{}    {} @ 0 Y", acct, a),
+                            "long-same-commodity-cost" => format!("{}    {} @ 2 X", acct, a),
+                            "long-two-omitted" => acct.clone(),
+                            "long-dangling-at" => format!("{}    {} @", acct, a),
+                            _ => format!("{}    ({} + 1 X", acct, a),
+                        }
+                    } else if fam == "long-two-omitted" && pi == other {
+                        acct.clone()
+                    } else {
+                        format!("{}    {}", acct, a)
+                    };
+                    lines.push(line);
+                    pi += 1;
+                }
+                out.push(Fault { name: format!("{}/entry-of-{}-lines/fault-on-entry-line-{}", fam, n, fault_line + 1), family: fam, kind, setup: vec![], lines, fault: fault_line });
+            }
+        }
+    }
     out
 }
 
@@ -700,6 +793,13 @@ fn judge(obs: &Observed, lay: &Layout, bf: &BadFile, f: &Fault, loc: &Loc, via: 
         return Outcome::dont_care(format!("{}/accepted/{}", via, f.family));
     }
     let want_kind = if f.kind == Kind::Syntax { "parse" } else { "bookkeep" };
+    if obs.kind == "crashed" {
+        // the binary panicked or was killed instead of printing a diagnostic (thread ids in the text are not stable: not in the signature)
+        return Outcome::violation(
+            format!("crash/okane-binary-{}/{}/{}", obs.variant, want_kind, if loc.kind == LocKind::Root { "root-file" } else { "included-file" }),
+            format!("fault: {} ({})\nlocation: {}\nthe okane binary did not end with status 0 or 1; its stderr:\n{}", f.name, kname, loc.name(), strip_ansi(&obs.text)),
+        );
+    }
     if obs.kind != want_kind && obs.kind != "unknown" {
         return Outcome::dont_care(format!("{}/rejected-in-another-phase/{}/{}", via, f.family, obs.kind));
     }
@@ -764,7 +864,8 @@ fn judge(obs: &Observed, lay: &Layout, bf: &BadFile, f: &Fault, loc: &Loc, via: 
     let mut shown: Vec<(usize, &'static str)> = d.gutters.iter().map(|g| (g.0, "gutter")).collect();
     shown.extend(d.arrows.iter().map(|a| (a.1, "`-->`")));
     if shown.is_empty() {
-        return Outcome::dont_care(format!("{}/no-line-number-shown/{}", via, f.family));
+        // "diagnostics name the right file AND LINE": a rejection that shows no line number at all does not
+        return Outcome::violation(format!("shows-no-line-number/{}", tail), ctxt("the diagnostic shows no line number at all (no gutter, no `-->`)".into()));
     }
 
     // ---- T: the text next to gutter number N is line N of the original file ----
@@ -905,7 +1006,7 @@ fn observe_bin(bin: &std::path::Path, lay: &Layout, made: &mut std::collections:
         Some(0) => Observed { accepted: true, kind: String::new(), variant: String::new(), text: String::new() },
         Some(1) => Observed { accepted: false, kind: "unknown".into(), variant: "as printed by the binary".into(), text: stderr },
         // a panic (101) or a signal is a crash of okane on this input
-        other => panic!("okane binary ended with status {:?}: {}", other, stderr.lines().take(6).collect::<Vec<_>>().join(" | ")),
+        other => Observed { accepted: false, kind: "crashed".into(), variant: format!("exit-status-{}", other.map(|c| c.to_string()).unwrap_or_else(|| "signal".into())), text: stderr },
     }
 }
 
@@ -984,7 +1085,7 @@ fn self_check() {
         common.retain(|l| !l.is_empty());
         common.sort();
         common.dedup();
-        for f in faults(m) {
+        for f in faults(m).into_iter().chain(long_faults(m)) {
             let mut all = common.clone();
             all.extend(f.setup.iter().cloned());
             all.extend(f.lines.iter().cloned());
@@ -1156,6 +1257,73 @@ fn run(ctx: &mut Ctx) {
                 );
                 ctx.count("transitions", compared);
                 ctx.count("cases/real-file-system", 1);
+            }
+        }
+    }
+
+    // ---- family 5: long entries (2, 5, 10, 11, 12, 30 lines), the fault on every posting line incl. the last ----
+    let f5_ctxs = contexts(ctx.tier.pick(1usize, 2usize));
+    let mut long_by_mb: BTreeMap<u8, Vec<Fault>> = BTreeMap::new();
+    for mb in 0..DOMS[S_MB] {
+        long_by_mb.insert(mb, long_faults(marker(mb)));
+    }
+    ctx.fact("long_entry_faults", long_by_mb[&0].len() as u64);
+    ctx.fact("long_entry_contexts", f5_ctxs.len() as u64);
+    let f5_locs = |f: &Fault| -> Vec<Loc> { locations(f, false).into_iter().filter(|l| thorough || l.kind == LocKind::Root || (l.pre == 0 && (l.kind == LocKind::Lit1 || l.kind == LocKind::Glob2))).collect() };
+    for s in &f5_ctxs {
+        for f in &long_by_mb[&s[S_MB]] {
+            for loc in f5_locs(f) {
+                if !ctx.next_is_mine() {
+                    ctx.skip_cases(1);
+                    continue;
+                }
+                let bf = build_bad_file(s, f, true, 0);
+                let lay = build_layout("/v", &loc, f, &bf);
+                let mut compared = 0u64;
+                ctx.case(
+                    || describe(s, f, &loc, &lay, &bf, "fake-fs"),
+                    || {
+                        let obs = observe_fake(&lay);
+                        judge(&obs, &lay, &bf, f, &loc, "fake-fs", &mut compared)
+                    },
+                );
+                ctx.count("transitions", compared);
+                ctx.count("cases/long-entry", 1);
+            }
+        }
+    }
+    // long entries through the real binary: default context, root and glob depth 2, fault on the last line and on line 11
+    {
+        let bin = okane_binary();
+        let s: Slots = [0; NSLOTS];
+        for f in &long_by_mb[&0] {
+            let n = f.lines.len();
+            if !(n >= 11 && (f.fault == n - 1 || f.fault == 10)) {
+                continue;
+            }
+            for kind in [LocKind::Root, LocKind::Glob2] {
+                if !ctx.next_is_mine() {
+                    ctx.skip_cases(1);
+                    continue;
+                }
+                let loc = Loc { kind, pre: 0, setup_in_root: false, incb: 0 };
+                let bf = build_bad_file(&s, f, true, 0);
+                let lay = build_layout(&format!("{}/binlong-{:?}", base, loc.kind), &loc, f, &bf);
+                let args: Vec<String> = vec!["balance".into(), lay.root.clone()];
+                let mut compared = 0u64;
+                ctx.case(
+                    || describe(&s, f, &loc, &lay, &bf, &format!("real files, real binary (stderr), $ okane {}", args.join(" "))).replace(&base, "<scratch>"),
+                    || {
+                        let obs = observe_bin(&bin, &lay, &mut made, &args);
+                        let mut o = judge(&obs, &lay, &bf, f, &loc, "bin-balance", &mut compared);
+                        if let crate::fw::Verdict::Violation { sig, detail } = &o.verdict {
+                            o = Outcome::violation(sig.clone(), detail.replace(&base, "<scratch>"));
+                        }
+                        o
+                    },
+                );
+                ctx.count("transitions", compared);
+                ctx.count("cases/okane-binary", 1);
             }
         }
     }
